@@ -265,3 +265,159 @@ def hull_faces(verts):
         elif np.all(s >= -1e-7 * sc):
           faces.append((i, k, j))
   return np.array(faces, dtype=int)
+
+
+# ----------------------------------------------------------------------------- engine evaluation (in-process / worker)
+
+CON_DTYPE = np.dtype([('dist', 'f8'), ('pos', 'f8', (3,)), ('frame', 'f8', (9,)), ('geom', 'i4', (2,)),
+                      ('includemargin', 'f8')])
+
+
+def pack_result(ncon, dist, pos, frame, geom, includemargin, xpos, xmat, gd=None):
+  con = np.zeros(ncon, dtype=CON_DTYPE)
+  if ncon:
+    con['dist'] = dist
+    con['pos'] = np.asarray(pos, dtype=float).reshape(ncon, 3)
+    con['frame'] = np.asarray(frame, dtype=float).reshape(ncon, 9)
+    con['geom'] = np.asarray(geom, dtype=np.int32).reshape(ncon, 2)
+    con['includemargin'] = includemargin
+  res = dict(ncon=ncon, con=con, xpos=np.asarray(xpos, dtype=float).reshape(-1, 3),
+             xmat=np.asarray(xmat, dtype=float).reshape(-1, 3, 3))
+  if gd is not None:
+    res.update(d12=float(gd[0]), f12=np.asarray(gd[1], dtype=float), d21=float(gd[2]), f21=np.asarray(gd[3], dtype=float))
+  return res
+
+
+def eval_pose(lib, m, d, mocap_pos, mocap_quat, qpos, distmax=None, raw=False):
+  """Set the pose of a two-geom scene, run mj_forward and (optionally) the two mj_geomDistance queries."""
+  d.mocap_pos[0] = mocap_pos
+  d.mocap_quat[0] = mocap_quat
+  d.qpos[:] = qpos
+  lib.mj_forward(m, d)
+  n = int(d.ncon)
+  c = d.contact[:n]
+  out = dict(ncon=n, dist=[float(x) for x in c['dist']], pos=np.array(c['pos']).ravel().tolist(),
+             frame=np.array(c['frame']).ravel().tolist(), geom=np.array(c['geom']).ravel().tolist(),
+             includemargin=[float(x) for x in c['includemargin']], xpos=np.array(d.geom_xpos).ravel().tolist(),
+             xmat=np.array(d.geom_xmat).ravel().tolist())
+  if distmax is not None:
+    f12, f21 = np.zeros(6), np.zeros(6)
+    d12 = lib.mj_geomDistance(m, d, 0, 1, float(distmax), f12)
+    d21 = lib.mj_geomDistance(m, d, 1, 0, float(distmax), f21)
+    out['gd'] = [float(d12), f12.tolist(), float(d21), f21.tolist()]
+  if raw:
+    return out
+  return pack_result(out['ncon'], out['dist'], out['pos'], out['frame'], out['geom'], out['includemargin'], out['xpos'],
+                     out['xmat'], out.get('gd'))
+
+
+class WorkerDied(Exception):
+  def __init__(self, rc):
+    Exception.__init__(self, 'collision worker died rc=%s' % rc)
+    self.rc = rc
+
+
+class EngineWorker:
+  """Small subprocess that evaluates two-geom poses (checks/c13_worker.py): a crash of the collider kills the worker, not
+  the check. One JSON request per line, one JSON reply per line."""
+
+  def __init__(self):
+    self.p = None
+
+  def start(self):
+    import os
+    import subprocess
+    import sys
+    root = os.path.dirname(os.path.dirname(os.path.abspath(__file__)))
+    env = dict(os.environ)
+    env['PYTHONPATH'] = root + (':' + env['PYTHONPATH'] if env.get('PYTHONPATH') else '')
+    self.p = subprocess.Popen([sys.executable, '-W', 'ignore', '-m', 'checks.c13_worker'], cwd=root, env=env,
+                              stdin=subprocess.PIPE, stdout=subprocess.PIPE, text=True, bufsize=1)
+
+  def stop(self):
+    if self.p is not None:
+      try:
+        self.p.stdin.close()
+        self.p.wait(timeout=10)
+      except Exception:
+        self.p.kill()
+      self.p = None
+
+  def call(self, req, timeout=120):
+    import json
+    import select
+    if self.p is None or self.p.poll() is not None:
+      self.start()
+    try:
+      self.p.stdin.write(json.dumps(req) + '\n')
+      self.p.stdin.flush()
+      r, _, _ = select.select([self.p.stdout], [], [], timeout)
+      line = self.p.stdout.readline() if r else ''
+    except (BrokenPipeError, OSError):
+      line = ''
+    if not line:
+      rc = None
+      try:
+        if self.p.poll() is None:
+          self.p.kill()             # hung (e.g. endless loop in the collider): treat like a death, rc = 'timeout'
+          rc = 'timeout'
+        else:
+          rc = self.p.returncode
+      finally:
+        self.p = None
+      raise WorkerDied(rc)
+    out = json.loads(line)
+    if 'error' in out:
+      from vf import mj
+      raise mj.MjError(out['error'])
+    return pack_result(out['ncon'], out['dist'], out['pos'], out['frame'], out['geom'], out['includemargin'], out['xpos'],
+                       out['xmat'], out.get('gd'))
+
+
+def guarded_eval(ck, lib, worker, req, pair, convex, stats, what=''):
+  """Evaluate a request in the worker. On worker death: journal, re-run ONCE in a fresh worker; a deterministic death is the
+  known EPA buffer overrun only if `convex` (both geoms non-sphere convex types routed through mjc_Convex) AND the same pose
+  survives with ccd_iterations + 37; everything else is a plain violation. Returns None when the pose died."""
+  ck.journal(dict(stage='collision worker', what=what, **req))
+  try:
+    return worker.call(req)
+  except WorkerDied as e1:
+    rc1 = e1.rc
+  try:
+    worker.call(req)
+    ck.violation('collision worker died (rc=%s) on a pose that survives when repeated in a fresh process: non-deterministic '
+                 'crash; request=%s' % (rc1, req), dict(req), bucket='worker-death-nondeterministic')
+    return None
+  except WorkerDied as e2:
+    rc2 = e2.rc
+  m_ = lib.model_from_xml(req['xml'])
+  it0 = int(m_.opt.ccd_iterations)
+  survived = False
+  if convex:
+    try:
+      worker.call(dict(req, ccd_iterations=it0 + 37))
+      survived = True
+    except WorkerDied:
+      survived = False
+  msg = ('mj_forward / mj_geomDistance kills the process (rc %s, %s) on a %s-%s pose; deterministic; with ccd_iterations %d -> %d '
+         'the same pose %s; request=%s' % (rc1, rc2, pair[0], pair[1], it0, it0 + 37,
+                                           'survives' if survived else 'was not retried / dies too', req))
+  if convex and survived:
+    stats['finding:epa-buffer-overrun-iteration-limit'] = stats.get('finding:epa-buffer-overrun-iteration-limit', 0) + 1
+    ck.violation('native EPA overruns its polytope buffers when it exhausts ccd_iterations (SIGSEGV in epa/projectOriginPlane) -- '
+                 + msg, dict(req), bucket='known:epa-buffer-overrun-iteration-limit',
+                 fingerprint='%s:epa-buffer-overrun-iteration-limit' % ck.pid)
+  else:
+    ck.violation(msg, dict(req), bucket='worker-death:%s-%s' % pair)
+  return None
+
+
+EPA_CRASH_REPRO = dict(
+    xml='<mujoco><option ccd_tolerance="1e-06" ccd_iterations="200"></option><worldbody><body name="a" mocap="true"><geom name="ga" '
+        'type="cylinder" size="0.7525543373101293 0.7492616839243159" margin="0.0002317796440039266" gap="0.019960588564669045"/>'
+        '</body><body name="b"><freejoint/><geom name="gb" type="box" size="1.1415245304822925 2.0626289699860276 2.207039358751939" '
+        'margin="0.0005174820399203894" gap="0.0031575881191011415"/></body></worldbody></mujoco>',
+    mocap_pos=[0.7536486137932363, -0.4895831557413479, 0.45171329183285036],
+    mocap_quat=[0.633130995548563, 0.7075576255332753, -0.28083651594308495, -0.1401363633692142],
+    qpos=[1.6729409851619716, 1.8866785473474532, 3.628184071731406, 0.5472098691669472, 0.7609263052723836,
+          -0.022318155879388627, -0.34792875269077067], distmax=1.0)
